@@ -299,8 +299,17 @@ def g9(ctx: Ctx):
     src = unparse(sv)
     from .pyast import ast_contains
 
-    okm = ast_contains(sv, "$v if $v.endswith('$') else f'arr_{$v[:-3]}$'")
-    ctx.ob("config-keys->emitted-names", okm, "" if okm else "configured names are no longer rewritten as `X$` -> `X$`, `X$()` -> `arr_X$`", file="coco/b09/visitors.py", line=sv.lineno, props=["C09", "C10"])
+    # slots: the f-string that builds the array identifier (`arr_` + the key without its `$()` + `$`), under a test of
+    # the key's last character - as a conditional expression, an if statement, or anything else that contains them
+    fstrs = [n for n in ast.walk(sv) if isinstance(n, ast.JoinedStr) and n.values and isinstance(n.values[0], ast.Constant) and str(n.values[0].value).startswith("arr_")]
+    okm = False
+    for fs in fstrs:
+        parts_ = fs.values
+        if len(parts_) == 3 and parts_[0].value == "arr_" and isinstance(parts_[2], ast.Constant) and parts_[2].value == "$" and isinstance(parts_[1], ast.FormattedValue):
+            sl_ = parts_[1].value
+            if isinstance(sl_, ast.Subscript) and isinstance(sl_.slice, ast.Slice) and sl_.slice.lower is None and isinstance(sl_.slice.upper, ast.UnaryOp) and isinstance(sl_.slice.upper.operand, ast.Constant) and sl_.slice.upper.operand.value == 3:
+                okm = any(isinstance(c, ast.Call) and isinstance(c.func, ast.Attribute) and c.func.attr == "endswith" and c.args and isinstance(c.args[0], ast.Constant) and c.args[0].value == "$" for c in ast.walk(sv))
+    ctx.idiom("config-keys->emitted-names", bool(fstrs), okm, "" if okm else "configured names are no longer rewritten as `X$` -> `X$`, `X$()` -> `arr_X$`", file="coco/b09/visitors.py", line=sv.lineno, props=["C09", "C10"])
 
 
 @rule("E8", "IDENT-DISJOINT: identifiers the tool invents cannot be user identifiers; no constant DIM declares a name twice", ["C09", "C10", "C07"], floor=8)
@@ -337,12 +346,36 @@ def e8(ctx: Ctx):
     gt = py.cls("AbstractBasicStatement").methods.get("get_new_temp")
     ctx.need(gt is not None, "AbstractBasicStatement.get_new_temp", "not found")
     temp_pats = []
+
+    def const_alts(name: str) -> Optional[List[str]]:
+        """String constants a local name is bound to in get_new_temp (plain or tuple assignments)."""
+        alts_: List[str] = []
+        for a_ in ast.walk(gt):
+            if isinstance(a_, ast.Assign) and len(a_.targets) == 1:
+                t_, v_ = a_.targets[0], a_.value
+                if isinstance(t_, ast.Name) and t_.id == name and isinstance(v_, ast.Constant) and isinstance(v_.value, str):
+                    alts_.append(v_.value)
+                elif isinstance(t_, ast.Tuple) and isinstance(v_, ast.Tuple) and len(t_.elts) == len(v_.elts):
+                    for te, ve in zip(t_.elts, v_.elts):
+                        if isinstance(te, ast.Name) and te.id == name:
+                            if isinstance(ve, ast.Constant) and isinstance(ve.value, str):
+                                alts_.append(ve.value)
+                            else:
+                                return None
+        return alts_ or None
+
     for n in ast.walk(gt):
         if isinstance(n, ast.JoinedStr):
-            pat = ""
+            variants = [""]
             for v in n.values:
-                pat += re.escape(str(v.value)) if isinstance(v, ast.Constant) else r"\d+"
-            temp_pats.append((pat, n.lineno))
+                if isinstance(v, ast.Constant):
+                    variants = [x + re.escape(str(v.value)) for x in variants]
+                elif isinstance(v, ast.FormattedValue) and isinstance(v.value, ast.Name) and const_alts(v.value.id) is not None:
+                    variants = [x + re.escape(c_) for x in variants for c_ in const_alts(v.value.id)]
+                else:
+                    variants = [x + r"\d+" for x in variants]
+            for pat in variants:
+                temp_pats.append((pat, n.lineno))
     ctx.need(len(temp_pats) == 2, "get_new_temp", f"expected a numeric and a string temporary name pattern, found {temp_pats}")
     for pat, ln in temp_pats:
         L = Lang.from_regex("(?i)" + pat)
